@@ -195,6 +195,7 @@ func (r *Report) Finish() int {
 	nViol, nKnown, nDis, nNontriv := 0, 0, 0, 0
 	var knownMatched []string
 	var lines []string
+	printedKnown := map[string]bool{}
 	distinct := map[string]bool{}
 	for _, o := range r.Obls {
 		if o.Nontrivial {
@@ -204,9 +205,14 @@ func (r *Report) Finish() int {
 		case Discharged:
 			nDis++
 		default:
-			if k, ok := open[o.Key]; ok && o.Status == Violated {
+			// the same construct failing under the second (GOARCH=386) configuration is the same finding
+			if k, ok := open[strings.Replace(o.Key, "/386:", "/", 1)]; ok && o.Status == Violated {
 				nKnown++
 				knownMatched = append(knownMatched, o.Key)
+				if printedKnown[k.Key] {
+					continue
+				}
+				printedKnown[k.Key] = true
 				lines = append(lines, fmt.Sprintf("KNOWN-FINDING: property=%s %s [%s at %s]", r.Property, k.WhatFails, o.Key, o.Pos))
 				continue
 			}
